@@ -57,6 +57,22 @@ def gen(rng, tier):
             for tail in (final, zero_end):
                 for op in ("gen_bigint", "random_bits_i"):
                     reqs.append("C18 %s %d %s" % (op, bits, wwords(tape + tail)))
+    # the hardware divide: every division form that reaches `div_wide` (scalar forms of every primitive type with zero,
+    # one, MAX and boundary divisors on zero / one-digit / long receivers; big ∘ big with normalised and unnormalised top
+    # digits) — requests of stream C03 run inside the C15 check: a `div` issued with hi >= divisor kills the worker with
+    # SIGFPE in release (C15-w2: `/= 0u32` without its zero check)
+    try:
+        import c03 as _c03
+        sc = _c03.scalar_requests(rng, False)
+        zero_div = [l for l in sc if (":0 " in l + " ") or l.rstrip().endswith(" .") or l.rstrip().endswith(" 0.")]
+        rest = [l for l in sc if l not in set(zero_div)]
+        reqs += zero_div + rng.sample(rest, min(len(rest), 4000 if tier == "thorough" else 1200))
+        for a in [0, 1, 5, MAX, B, B + 1, big(rng, 2), big(rng, 3), big(rng, 9)]:
+            for b in [0, 1, 2, MAX, B, B - 1, (1 << 63), (1 << 63) + 1, big(rng, 1), big(rng, 2), val([0, 1 << 63]), val([MAX, 1]), a, a + 1]:
+                for op in ("u.div_rem", "u.div", "u.rem", "u.div_assign", "u.rem_assign"):
+                    reqs.append("C03 %s %s %s" % (op, wu(a), wu(b)))
+    except Exception:  # noqa: BLE001
+        pass
     for n in range(0, 401 if tier == "thorough" else 200):
         reqs.append("C15 gen_biguint %d %d" % (n, rng.randrange(1 << 62)))
     return reqs
